@@ -84,6 +84,10 @@ def _parse(r):
             if mm:
                 r.violated.append(mm.group(1))
                 continue
+            mm = re.match(r"Error: Temporal property (\w+) was violated", ln)
+            if mm:                                    # TLC 1.8 names the property
+                r.violated.append(mm.group(1))
+                continue
             if "Temporal properties were violated" in ln:
                 r.violated.append("TEMPORAL")
                 continue
